@@ -68,6 +68,8 @@ def main():
             p = os.path.join(d, rel); s = open(p).read()
             if name.startswith("H2a"):
                 # keep the original function but dead (cfg(any()) is never true), put a changed active copy in front of it
+                if "pub(crate) fn decrypt(" not in s or "*previous_value = *encrypted;" not in s:
+                    print("%-9s %s" % ("skipped", name)); continue
                 j = s.index("pub(crate) fn decrypt(")
                 body = s[j:]
                 changed = body.replace("*previous_value = *encrypted;", "*previous_value = unencrypted;")
@@ -76,10 +78,13 @@ def main():
             elif name.startswith("M3"):
                 s = s + new
             elif name.startswith("M6 tbc seed"):
+                if "let s: [u8; SEED_KEY_SIZE] = [" not in s:
+                    print("%-9s %s" % ("skipped", name)); continue
                 k = s.index("let s: [u8; SEED_KEY_SIZE] = ["); e = s.index("];", k) + 2
                 s = s[:e] + "\n        let s = s.map(|b| b.wrapping_add(1));" + s[e:]
             else:
-                assert s.count(old) >= 1, (name, "pattern not found")
+                if s.count(old) < 1:
+                    print("%-9s %s (the source no longer contains the text this edit replaces)" % ("skipped", name)); continue
                 s = s.replace(old, new, 1)
             open(p, "w").write(s)
             c1, k1 = gen(d, os.path.join(tmp, "g%d" % (i + 1)))
